@@ -990,6 +990,20 @@ fn main() {
     let all = sel.iter().any(|s| s == "*");
     let exclude: BTreeSet<String> =
         job["exclude_fns"].as_array().map(|a| a.iter().map(|v| v.as_str().unwrap().to_string()).collect()).unwrap_or_default();
+    // "rename_fns": {"<file>#<free fn>": "<new name>"} — two files of one unit may define free functions of the same
+    // name (math: `div_floor` for i128 and for I256); the definition and the calls *inside that file* are renamed
+    let rename_fns: BTreeMap<String, String> =
+        job["rename_fns"].as_object().map(|m| m.iter().map(|(k, v)| (k.clone(), v.as_str().unwrap().to_string())).collect()).unwrap_or_default();
+    let mut file_renames: BTreeMap<String, BTreeMap<String, String>> = BTreeMap::new();
+    for f in c.fns.iter_mut() {
+        if f.impl_type.is_none() {
+            if let Some(n) = rename_fns.get(&format!("{}#{}", f.file, f.key)) {
+                f.sig.ident = Ident::new(n, f.sig.ident.span());
+                file_renames.entry(f.file.clone()).or_default().insert(f.key.clone(), n.clone());
+                f.key = n.clone();
+            }
+        }
+    }
     // optional per-file disambiguation "file#key"
     let mut selected: Vec<FnRec> = vec![];
     let mut seen = BTreeSet::new();
@@ -1095,6 +1109,10 @@ fn main() {
     for f in &selected {
         let (envs, byval) = envs_of[&f.key].clone();
         let eff = effectful.contains(&f.key);
+        let mut rc_local = rename_calls.clone();
+        if let Some(m) = file_renames.get(&f.file) {
+            rc_local.extend(m.iter().map(|(k, v)| (k.clone(), v.clone())));
+        }
         let mut rw = Rw {
             envs: envs.clone(),
             env_by_value: byval.clone(),
@@ -1111,7 +1129,7 @@ fn main() {
             sites: BTreeMap::new(),
             errors: vec![],
             hoist_ctr: 0,
-            rename_calls: &rename_calls,
+            rename_calls: &rc_local,
             float_ctx: false,
         };
         let _ = rw.self_effectful;
